@@ -79,6 +79,18 @@ CHECKS = {
         text='States are the distinct 3x3 matrices reachable by products of rotations, uniform/non-uniform scales, reflection, axis swap, shear and translation (depth 3 quick, 4 thorough); the oracle depends only on the matrix, so rounding the entries is a sound state key. In every state transform(curve, M).point(t) is compared with M applied to point(t) for all four segment classes and for paths, and exactly coincident joints (closing joint included) must stay exactly coincident.',
         note='Trusted: point() of the original curve. Matrices outside the generated monoid slice are not covered.',
         design='4/C10'),
+    'C11': dict(
+        level='exploration',
+        technique='bounded-exhaustive enumeration of all 16 ordered segment-type pairs x configuration families (crossing, tangential touch, near-miss at two gaps, disjoint, end-point contact) x placement parameters, and of path pairs x rigid motions; every returned pair is judged',
+        text='For every configuration of the grid both operand orders are solved by the real intersect; every returned pair must be in range and have residual <= 1e-5*size (1e-3 with an arc), the two orders must report the same crossings (mutual matching within 1e-4; not for general arc-arc pairs, whose solver is documented incomplete), and Path.intersect results must be coherent in T/t/segment membership. Exceptions are tolerated only where the property tolerates them.',
+        note='Trusted: point() of both curves. Tangency of two curved segments (20-50 s per call in the subdivision solver) is limited to three pairs in the thorough tier.',
+        design='4/C11'),
+    'C12': dict(
+        level='exploration',
+        technique='bounded-exhaustive enumeration of constructed transversal crossings (shape pair x parameters x angle grid, admitted by an independent dense neighbourhood search) and of Line x Bezier pairs over a lattice of lines whose exact crossing count is decided by Sturm sequences over Q; paths with exact expected counts',
+        text='Each constructed crossing must be reported exactly once within 1e-4 in both parameters; for Line-Line/Line-Bezier/Bezier-Line pairs in general position (decided exactly, others filtered and counted) the number of reported pairs must equal the exact count in both operand orders; Path.intersect must report the exact total for polyline x Bezier-chain pairs.',
+        note='Trusted: mc/exact.py root isolation; the dense neighbourhood search as the reading of "well separated". Two arcs only when both circular and unrotated.',
+        design='4/C12'),
 }
 
 NOT_YET = {}
